@@ -1,10 +1,72 @@
 #!/usr/bin/env python3
-"""Rules over the must-fail corpus and the generator token scan (filled in below)."""
+"""Rules over the must-fail corpus (rustc diagnostics) and the generator token scan."""
+import json
+import os
+import subprocess
+
+import build as buildmod
+
+
+def attributed(diags, d):
+    return [x for x in diags if any(a.get("line") and d["line0"] <= a["line"] <= d["line1"] for a in x["at"])]
 
 
 def analyse_negative(ctx, want_props):
-    return
+    facts = ctx.facts
+    labels = [r["label"] for r in facts.runs if r["label"].startswith("neg")]
+    for cname in facts.meta["crates"]:
+        m = facts.model.get(cname)
+        if not m or m["kind"] == "pos":
+            continue
+        witnesses = [d for d in m["decls"] if d["kind"] == "neg"]
+        if not any(d["prop"] in want_props for d in witnesses):
+            continue
+        for label in labels:
+            diags = facts.diags(cname, label)
+            claimed = set()
+            for d in witnesses:
+                mine = attributed(diags, d)
+                for x in mine:
+                    claimed.add(id(x))
+                if d["prop"] not in want_props:
+                    continue
+                props = {d["prop"]}
+                key = "%s|%s|%s|rejected%s" % (cname, d["path"], d["clause"], "" if label == "neg" else "|" + label)
+                ctx.note_shape(props, cname + "::" + d["path"], ("reject", d["clause"], d.get("base"), json.dumps(d.get("shape"), sort_keys=True)))
+                if not mine:
+                    ctx.ob(props, key, False,
+                           "must-fail witness compiles: %s -- accepted: %s" % (d["clause"], " ".join(l.strip() for l in d["lines"])[:260]),
+                           sample=None)
+                    continue
+                want_code = d.get("expect_code")
+                if want_code and not any(x.get("code") == want_code for x in mine):
+                    ctx.ob(props, key, None, "rejected, but not with %s: %s" % (want_code, mine[0]["message"][:120]))
+                    continue
+                ctx.ob(props, key, True, sample={"witness": d["path"], "clause": d["clause"], "rustc": (mine[0].get("code") or "") + " " + mine[0]["message"][:140]})
+            stray = [x for x in diags if id(x) not in claimed]
+            if stray:
+                ctx.ob(set(want_props), "%s|unattributed_errors|%s" % (cname, label), None,
+                       "%d rustc error(s) in the must-fail crate belong to no witness, e.g. %s at %s" % (len(stray), stray[0]["message"][:160], stray[0]["at"][:1]))
 
 
 def analyse_generator(ctx):
-    return
+    """C18, generator level: no `unsafe` token and no std/alloc-rooted path in any emitted template"""
+    src = os.path.join(buildmod.REPO, "bitbybit", "src")
+    if not os.path.exists(buildmod.GENSRC_BIN):
+        ctx.ob({"C18"}, "generator|token_scan", None, "gensrc tool not built")
+        return
+    r = subprocess.run([buildmod.GENSRC_BIN, src, "--templates"], stdout=subprocess.PIPE, stderr=subprocess.PIPE, text=True)
+    if r.returncode != 0:
+        ctx.ob({"C18"}, "generator|token_scan", None, "gensrc failed: %s" % r.stderr[-300:])
+        return
+    d = json.loads(r.stdout)
+    ctx.note_shape({"C18"}, "generator", ("templates", d.get("templates")))
+    ctx.ob({"C18"}, "generator|templates_found", d.get("templates", 0) >= 20, "only %s quote! templates found" % d.get("templates"),
+           sample={"templates": d.get("templates"), "string_sources": d.get("string_sources"), "files": d.get("files")})
+    for f in d.get("findings", []):
+        ctx.ob({"C18"}, "generator|%s|%s|%s" % (f["kind"], f["file"], f["token"]), False,
+               "generator template in %s emits `%s` (%s)" % (f["file"], f["token"], f["kind"]))
+    if not d.get("findings"):
+        ctx.ob({"C18"}, "generator|no_unsafe_no_std_tokens", True, sample={"scanned_tokens": d.get("tokens")})
+    ok = d.get("selftest") == "ok"
+    ctx.ob({"C18"}, "generator|scanner_selftest", ok, "the scanner's own positive example (an `unsafe` block and a ::std path in a quote! template) was not flagged")
